@@ -96,7 +96,7 @@ def located(msgs):
     return [m for m in preorder(msgs) if m.get("span")]
 
 
-def msgs_event(case, job, msgs, printed):
+def msgs_event(case, job, msgs, printed, opened=None):
     """all located messages of one run; the printed location lines are paired
     with them in order of appearance (print_msg prints the tree in pre-order,
     one ` --> ` line per message that has a location)."""
@@ -117,7 +117,9 @@ def msgs_event(case, job, msgs, printed):
             raise Unjudged("huge-number")
         spans.append(e)
     files = file_records(job, [e["file"] for e in spans])
-    return {"ev": "msgs", "case": case, "files": files, "spans": spans}, paired
+    # location lines that name a file only (a message about a file as a whole): the file must be one the run has read
+    bare = [m.group(1) for m in re.finditer(r"^ *--> (.*)$", printed or "", re.M) if not re.match(r".*:\d+:\d+:$", m.group(1))]
+    return {"ev": "msgs", "case": case, "files": files, "spans": spans, "bare": bare, "opened": sorted(opened or [])}, paired
 
 
 def fault_event(case, job, msgs, fault_file, fault_line):
@@ -174,6 +176,11 @@ def family_a_jobs(ck, quick):
         src = j["files"][j["roots"][0]]
         add("decorated-top:" + n, j, "; " + rng.choice(MB) + "\n" + src)
         add("decorated:" + n, j, decorate(rng, src))
+    # diagnostics that mention the built-in default bank (it has no source location of its own)
+    for k, text in enumerate(["#addr 0x7fffffff\n#d8 1\n#d8 2\n", "#d8 1\n#addr 0x2000_0000\nend:\n#d8 2\n",
+                              "#ruledef\n{\n    nop => 0x00\n}\n#addr 0x3000_0000\nnop\n"]):
+        jobs.append({"mode": "asm", "files": {"main.asm": text}, "std": True, "roots": ["main.asm"], "want": WANT})
+        names.append("default-bank:%d" % k)
     small = [(n, j) for n, j in bases if len(j["files"][j["roots"][0]]) <= 1500]
     for k in range(6000 if quick else 120000):            # mutants, plain and decorated
         n, j = rng.choice(small if rng.random() < 0.9 else bases)
@@ -427,7 +434,8 @@ def run_c13(ck):
     def add_msgs(name, job, r, family):
         case = len(info)
         try:
-            e, paired = msgs_event(case, job, r.get("messages"), r.get("printed"))
+            e, paired = msgs_event(case, job, r.get("messages"), r.get("printed"),
+                                   opened=set(x.get("name") for x in (r.get("fslog") or []) if x.get("op") in ("open", "read", "read_bytes", "read_str") and x.get("ok", True)))
         except Unjudged as u:
             stats["unjudged"][str(u)] = stats["unjudged"].get(str(u), 0) + 1
             return
